@@ -197,6 +197,9 @@ func (w *worker) runChild(sc *Script, dir string, inc Inc, killPoint string, kil
 	cmd.Stderr = &stderr
 	w.srv.setLate(time.Duration(inc.LateMs) * time.Millisecond)
 	err := cmd.Run()
+	if !w.srv.barrier() {
+		run.Count("server_barrier_not_seen_after_child_exit", 1)
+	}
 	w.srv.setLate(0)
 	res := incResult{Def: inc}
 	if ctx.Err() != nil {
